@@ -712,6 +712,12 @@ def run(ctx) -> None:
     ctx.rule("C20.render", "T10: display helpers total over thresholds and table shapes", floor=12)
     ctx.rule("C20.detached", "T8: to_frame/public tables are copies; held model objects are copies", floor=7)
     ctx.rule("C20.route", "call routing of the three summary() methods", floor=3)
+    # the coefficient a summary scales by is read through Reaction.get_coefficient on the reaction as it stands: no
+    # getter of a model object may answer from a store that an edit has not dropped (shared with C02)
+    from . import stores
+
+    ctx.rule("C02.derived", "T1: a value derived from an object's own state and kept on the object is dropped by every method of the class that changes that state (shared with C02)", floor=6, hard=1)
+    ctx.guard(stores.check_derived_stores, ctx, "C02.derived")
     for chk in (check_model_summary, check_metabolite_summary, check_reaction_summary, check_default_solution, check_detached, check_route):
         try:
             chk(ctx)
